@@ -96,6 +96,10 @@ package taint
 //  - C01: returning to the call site found on the call stack pops that call: every
 //    node enqueued from a return-value node with a matching call site carries the
 //    parent of the current call stack;
+//  - C01: the jump from a WRITE of a global to the places where the global is read
+//    (any function, any calling context) drops the call stack: every node enqueued in
+//    such an iteration has a nil call-stack trace (a read node is recognised by its
+//    Out() edges being followed);
 //  - C05: unless summaries may be ignored, a write to a global makes the traversal
 //    look for the functions reading it (ReachableFunctions scan that builds their
 //    summaries) whatever the summarisation mode -- a global-access node that is not
@@ -113,6 +117,7 @@ package taint
 //@   loop 1 body closure_out_edges: istype(cur.Node, *dataflow.ClosureNode) && expanded() ==> called(ClosureNode.Out, _)
 //@   loop 1 body synthetic_out_edges: istype(cur.Node, *dataflow.SyntheticNode) && expanded() ==> called(SyntheticNode.Out, _)
 //@   loop 1 body return_pops_call_stack: istype(cur.Node, *dataflow.ReturnValNode) && called(dataflow.UnwindCallstackFromCallee, _, _) && retof(dataflow.UnwindCallstackFromCallee, _, _) != nil ==> !called(addNext, _, _, _, _, _, where(x, x.Trace != cur.Trace.Parent), _, _)
+//@   loop 1 body global_write_drops_call_stack: istype(cur.Node, *dataflow.AccessGlobalNode) && !called(AccessGlobalNode.Out, _) ==> !called(addNext, _, _, _, _, _, where(x, x.Trace != nil), _, _)
 //@   loop 1 body filtered_not_reported: called(isFiltered, _, _, _) && retof(isFiltered, _, _, _) ==> !called(addNext, _, _, _, _, _, _, _, _) && !called(addNewPathCandidate, _, _, _)
 
 // ---------------------------------------------------------------------------
